@@ -284,7 +284,7 @@ def rand_text(rng, ssc=None):
                 parts.append(param(rng.choice(["NOTES", "NOTES", "notes", "NOTES2"]), 1))
             if rng.random() < .3: parts.append(param())
         else:
-            ncomp = rng.choice([6, 6, 6, 7, 8, 5, 2])
+            ncomp = rng.choice([6, 6, 6, 6, 7, 8, 5, 2, 1, 0])      # 0: the key-only form #NOTES;
             parts.append(param(pad(rng.choice(["NOTES", "notes", "Notes"])), ncomp))
             if rng.random() < .4: parts.append(param())
     parts.append(stray())
